@@ -46,7 +46,10 @@ PROPS: Dict[str, List[str]] = {
 
 def _run_worker(args: List[str], wall: float) -> Dict[str, Any]:
     env = dict(os.environ)
-    env["PYTHONPATH"] = ROOT + os.pathsep + env.get("PYTHONPATH", "")
+    pp = [ROOT]
+    if env.get("VERIF_REPO_SRC"):  # development aid: analyse a scratch worktree's src instead of /repo/src
+        pp.insert(0, env["VERIF_REPO_SRC"])
+    env["PYTHONPATH"] = os.pathsep.join(pp + [env.get("PYTHONPATH", "")])
     env.setdefault("PYTHONHASHSEED", "0")
     t0 = time.time()
     try:
